@@ -8,6 +8,7 @@ import subprocess
 from . import scratch
 
 VERIF = scratch.VERIF
+TIER = 'quick'
 
 
 def _build():
@@ -26,12 +27,14 @@ def _build():
         return os.path.join(tgt, 'debug', 'verif-replay'), ''
 
 
-def _run(args, timeout=600, skip=None):
+def _run(args, timeout=None, skip=None):
+    timeout = timeout or (3000 if TIER == 'thorough' else 600)
     exe, err = _build()
     if exe is None:
         return {'found': False, 'error': True, 'how': 'replay crate failed to build against the current tree: ' + err}
     try:
         env = dict(os.environ)
+        env['VERIF_TIER'] = TIER
         if skip:
             env['VERIF_SKIP'] = json.dumps(skip)
         p = subprocess.run([exe] + args, capture_output=True, text=True, timeout=timeout, env=env)
